@@ -41,7 +41,8 @@ class Generated:
         self.counters = {}
         self.trusted = []      # descriptions of trusted items
         self.fn_keys = []
-        self.missing = []      # contracted functions that no longer exist: (file, key, props)
+        self.missing = []
+        self.probed = []      # contracted functions that no longer exist: (file, key, props)
     def text(self):
         return '\n'.join(self.lines) + '\n'
 
@@ -67,7 +68,7 @@ def _emit_text(g, text, props, tag):
         if re.search(r'\bassume\s*\(', ln) and not ln.strip().startswith('//'):
             g.trusted.append('assume in ghost text: ' + ln.strip()[:120])
 
-def generate(unit, repo_src=None, modes=None):
+def generate(unit, repo_src=None, modes=None, probe=False):
     repo_src = repo_src or REPO_SRC
     modes = modes or {}
     g = Generated()
@@ -148,7 +149,8 @@ def generate(unit, repo_src=None, modes=None):
                 ed.replace(t[fn.i_bo].a, t[fn.i_bc].b, '{ unimplemented!() }')
                 ed.insert(t[fn.i_attr].a, '#[verifier::external_body]\n')
             if spec is not None:
-                apply_fn(f, ed, spec, c, md)
+                apply_fn(f, ed, spec, c, md, probe)
+                if probe and not spec.trust and md != 'external': g.probed.append(key)
                 if spec.trust:
                     h = hashlib.sha256(fn.text().encode()).hexdigest()[:16]
                     g.trusted.append('trusted body (pinned text %s): %s' % (h, key))
